@@ -245,17 +245,19 @@ class Case:
         self.base, self.tree, self.mode, self.link, self.mind, self.maxd, self.layers = base, tree, mode, link, mind, maxd, list(layers)
 
     cwd = None
+    swap_depths = False      # the implementation is given (max, min): DepthMinMax::from_depths_or_max takes its depths in either order
 
     def impl_cmd(self):
         head = 'walk' if self.cwd is None else 'walkcd ' + hx(self.cwd)
-        return '%s %s %s %s %s %s %s' % (head, hx(self.base), self.mode, self.link, self.mind, self.maxd, ' '.join(self.layers))
+        mind, maxd = (self.maxd, self.mind) if (self.swap_depths and self.mind != '-' and self.maxd != '-') else (self.mind, self.maxd)
+        return '%s %s %s %s %s %s %s' % (head, hx(self.base), self.mode, self.link, mind, maxd, ' '.join(self.layers))
 
     def model_cmd(self):
         return 'walk %s %s %s %s %s' % (tree_text(self.tree), self.mode, self.mind, self.maxd, ' '.join(self.layers))
 
     def describe(self):
         return {'base': self.base, 'mode': ('glob ' + W.unhx(self.mode[1:])) if self.mode.startswith('G') else 'path', 'link': self.link,
-                'min': self.mind, 'max': self.maxd, 'layers': [describe_layer(l) for l in self.layers], 'tree': tree_text(self.tree)[:600]}
+                'min': self.mind, 'max': self.maxd, 'depths_given_as': '(max, min)' if self.swap_depths else '(min, max)', 'layers': [describe_layer(l) for l in self.layers], 'tree': tree_text(self.tree)[:600]}
 
 
 def describe_layer(l):
@@ -850,7 +852,10 @@ def c15(res, rng, tier, replay=None):
     sb = Sandbox('C15')
     try:
         cases, nodes = glob_cases(sb, rng, ntrees, 6, behaviours=True, faults=True)
-        cases = [c for c in cases]
+        for c in cases:
+            # "the depths need not be ordered": a third of the windows are given to the implementation as (max, min)
+            if c.mind != '-' and c.maxd != '-' and c.mind != c.maxd and rng.random() < 0.35:
+                c.swap_depths = True
         results = run_cases(cases)
         pairs = [(e, [p for p, _ in preorder(node)]) for (node, e) in nodes]
         bits = match_bits(pairs)
@@ -888,6 +893,26 @@ def c15(res, rng, tier, replay=None):
 
 
 # ---- C03 ------------------------------------------------------------------------------------------------------------------------------
+def mixed_negations(rng, node):
+    """patterns `D/{X/**,*/N}` (and spellings of it) from names of the tree: D a directory, X a child directory of D, N the name of an
+    entry two levels below D"""
+    out = []
+    ents = dict(preorder(node))
+    dirs_ = [p for p, n in ents.items() if p != '' and n[0] == 'D' and '\\' not in p]
+    rng.shuffle(dirs_)
+    for d in dirs_:
+        kids = [nm for nm, k in ents[d][1]]
+        sub = [nm for nm, k in ents[d][1] if k[0] == 'D']
+        grand = [nm2 for nm, k in ents[d][1] if k[0] == 'D' for nm2, _ in k[1]]
+        if not sub or not grand:
+            continue
+        x, n_ = rng.choice(sub), rng.choice(grand)
+        dl, xl, nl_ = '/'.join(lit(c_) for c_ in d.split('/')), lit(x), lit(n_)
+        out.append(rng.choice(['%s/{%s/**,*/%s}' % (dl, xl, nl_), '%s{/%s/**,/**/%s}' % (dl, xl, nl_), '<%s/{%s/**,*/%s}:1,2>' % (dl, xl, nl_),
+                               '%s/{*/%s,%s/**}' % (dl, nl_, xl), '%s/{%s/**,%s/%s}' % (dl, xl, lit(rng.choice(sub)), nl_)]))
+    return out
+
+
 def c03(res, rng, tier, replay=None):
     if replay:
         return replay_walk(replay)
@@ -913,6 +938,14 @@ def c03(res, rng, tier, replay=None):
                 cases.append(Case(base, node, mode, 'F', '-', '-', ['N' + ','.join(hx(p) for p in pats)]))
                 cases.append(Case(base, node, mode, 'F', '-', '-', []))
                 meta.append(pats)
+            # tree-aware negations of mixed exhaustiveness below a literal directory: one branch is exhaustive (`X/**`), another is not
+            # (`*/N`): the pattern as a whole is only sometimes exhaustive and must not discard whole trees
+            for pat in mixed_negations(rng, node)[:2]:
+                if rooted_or_dotted(pat):
+                    continue
+                cases.append(Case(base, node, 'P', 'F', '-', '-', ['N' + hx(pat)]))
+                cases.append(Case(base, node, 'P', 'F', '-', '-', []))
+                meta.append([pat])
             # tree-aware: the underlying glob walk prunes one top-level directory by its component program and the
             # negation matches that same directory exhaustively
             tops = [n for n, k in node[1] if k[0] == 'D' and not any(ch in n for ch in '?*$:<>()[]{},')] if node[0] == 'D' else []
@@ -991,12 +1024,22 @@ def c20(res, rng, tier, replay=None):
                     layers.append(table_layer(rng, node, 0.4, 2) if rng.random() < 0.5 else 'N' + hx(rng.choice(NOT_PATTERNS)))
                 cases.append(Case(base, node, 'P', link, '-', '-', layers))
                 cases.append(Case(base, node, 'P', link, '-', '-', []))
+                # a minimum depth hides entries, never faults: the same walk with entries above a minimum depth only
+                cases.append(Case(base, node, rng.choice(['P', 'P', glob_mode('**'), glob_mode('**/*.txt')]), link, str(rng.randint(1, 4)), '-', []))
                 meta.append(node)
         results = run_cases(cases)
         for i, node in enumerate(meta):
-            (c, pi, pm, a, b) = results[2 * i]
-            (c0, pi0, pm0, a0, b0) = results[2 * i + 1]
-            res.evaluations += 2
+            (c, pi, pm, a, b) = results[3 * i]
+            (c0, pi0, pm0, a0, b0) = results[3 * i + 1]
+            (c1, pi1, pm1, a1, b1) = results[3 * i + 2]
+            tie_case(res, c1, pi1, pm1, a1, b1, 'C20')
+            if pi1['head'] == 'ok':
+                faults1 = [p for p, n in preorder(node) if n[0] in ('E', 'U')]
+                errs1 = [y['rel_base'] for y in pi1['yield'] if y['k'] == 'x']
+                if sorted(errs1) != sorted(faults1):
+                    res.oracle_fail('with a minimum depth the error items are not exactly one per fault',
+                                    {'case': c1.describe(), 'faults': faults1[:10], 'errors': errs1[:10]})
+            res.evaluations += 3
             res.nontrivial.add((c.base, c.link, tuple(c.layers)))
             tie_case(res, c, pi, pm, a, b, 'C20')
             tie_case(res, c0, pi0, pm0, a0, b0, 'C20')
